@@ -35,6 +35,8 @@ type rWorld struct {
 	policy  int
 	tickets []rTicket
 	seed    byte
+	// withhold: the client presents no certificate although it is asked for one
+	withhold bool
 }
 
 var rPolicies = []gmtls.ClientAuthType{gmtls.NoClientCert, gmtls.RequestClientCert, gmtls.RequireAndVerifyClientCert}
@@ -49,9 +51,14 @@ const (
 	rWrongMaster
 	rOtherSuiteOnly
 	rNumOps
+	// operations of the identity-focused unit only
+	rOtherSuiteNoCert = 8
+	rNewestOwnSuite   = 9
+	rWithhold         = 10
 )
 
-var rOpNames = []string{"connect(no ticket)", "connect(newest ticket)", "connect(oldest ticket)", "rotate(keep old)", "rotate(drop old)", "next ClientAuth policy", "connect(newest ticket, wrong master secret)", "connect(newest ticket, offering only the other suite)"}
+var rOpNames = []string{"connect(no ticket)", "connect(newest ticket)", "connect(oldest ticket)", "rotate(keep old)", "rotate(drop old)", "next ClientAuth policy", "connect(newest ticket, wrong master secret)", "connect(newest ticket, offering only the other suite)",
+	"connect(newest ticket, offering only the other suite, presenting NO certificate)", "connect(newest ticket, offering the suite of that ticket)", "client stops / resumes presenting its certificate"}
 
 var rPreferServer bool // the units below run with and without PreferServerCipherSuites on the server
 
@@ -123,11 +130,14 @@ func (w *rWorld) step(c *harness.Ctx, op int, hist string, vec []int) {
 		w.policy = (w.policy + 1) % len(rPolicies)
 		w.cfg.ClientAuth = rPolicies[w.policy]
 		return
+	case rWithhold:
+		w.withhold = !w.withhold
+		return
 	}
 	pol := rPolicies[w.policy]
 	var t *rTicket
 	switch op {
-	case rNewest, rWrongMaster, rOtherSuiteOnly:
+	case rNewest, rWrongMaster, rOtherSuiteOnly, rOtherSuiteNoCert, rNewestOwnSuite:
 		if len(w.tickets) > 0 {
 			t = &w.tickets[len(w.tickets)-1]
 		}
@@ -137,10 +147,13 @@ func (w *rWorld) step(c *harness.Ctx, op int, hist string, vec []int) {
 		}
 	}
 	offered := []uint16{w.suite}
-	if op == rOtherSuiteOnly {
+	if op == rOtherSuiteOnly || op == rOtherSuiteNoCert {
 		offered = []uint16{other(w.suite)}
 	}
-	sendCert := pol != gmtls.NoClientCert
+	if op == rNewestOwnSuite && t != nil {
+		offered = []uint16{t.suite}
+	}
+	sendCert := pol != gmtls.NoClientCert && !w.withhold && op != rOtherSuiteNoCert
 	// prediction
 	mustResume := false
 	if t != nil {
@@ -193,6 +206,13 @@ func (w *rWorld) step(c *harness.Ctx, op int, hist string, vec []int) {
 			c.Violate(fmt.Sprintf("reference-client:resumes-when-it-must-not:%s", rOpNames[op]), fmt.Sprintf("[%s] the server resumed a session the model forbids (ring %v, ticket key %d, policy %d): %s", tag, w.ring, t.keyID, pol, o.Describe()), vec, tag)
 		} else {
 			c.Violate(fmt.Sprintf("reference-client:does-not-resume:%s", rOpNames[op]), fmt.Sprintf("[%s] the server did not resume a session it must resume (ring %v, policy %d): %s", tag, w.ring, pol, o.Describe()), vec, tag)
+		}
+		return
+	}
+	if !mustResume && (pol == gmtls.RequireAnyClientCert || pol == gmtls.RequireAndVerifyClientCert) && !sendCert {
+		// a full handshake in which the required certificate is withheld must fail
+		if o.Lib.Complete || o.Lib.HandshakeErr == nil {
+			c.Violate("reference-client:completes-without-required-certificate", fmt.Sprintf("[%s] %s", tag, o.Describe()), vec, tag)
 		}
 		return
 	}
@@ -266,6 +286,43 @@ func refClientHistUnit(suite uint16, first, depth int) harness.Unit {
 	}}
 }
 
+// identity-focused histories: the server asks for a client certificate without insisting, and the
+// client may withhold it. What a session is worth is what ITS full handshake proved: a ticket issued
+// after a handshake without client certificate must never resume into a session that reports one -
+// whatever ticket the client had offered (and the server had declined) in that handshake.
+var rIdentityOps = []int{rFull, rNewest, rOtherSuiteOnly, rOtherSuiteNoCert, rNewestOwnSuite, rWithhold}
+
+func refClientIdentityUnit(suite uint16, pol gmtls.ClientAuthType, first, depth int) harness.Unit {
+	return harness.Unit{Name: fmt.Sprintf("reference-client-identity-histories/%04x/ClientAuth=%d/first=%s/depth=%d", suite, pol, rOpNames[first], depth), Run: func(c *harness.Ctx) {
+		c.Explore(-1, func(x *xp.X) {
+			w := newRWorld(suite)
+			w.cfg.ClientAuth = pol
+			for i, p := range rPolicies {
+				if p == pol {
+					w.policy = i
+				}
+			}
+			hist := ""
+			for i := 0; i < depth; i++ {
+				op := first
+				if i > 0 {
+					op = rIdentityOps[x.Pick(len(rIdentityOps), "op")]
+				}
+				if i > 0 {
+					hist += "; "
+				}
+				hist += rOpNames[op]
+				n := len(c.Violations)
+				w.step(c, op, hist, append([]int{}, x.Choices...))
+				if len(c.Violations) > n {
+					return
+				}
+			}
+			c.DistinctS("states", fmt.Sprint(suite, pol, hist))
+		}, nil)
+	}}
+}
+
 func refClientUnits(tier string) []harness.Unit {
 	depth := 4
 	if tier == "thorough" {
@@ -273,6 +330,9 @@ func refClientUnits(tier string) []harness.Unit {
 	}
 	var u []harness.Unit
 	for _, s := range []uint16{gmref.SuiteCBC, gmref.SuiteGCM, gmref.SuiteAESCBC, gmref.SuiteAESGCM} {
+		for _, f := range rIdentityOps {
+			u = append(u, refClientIdentityUnit(s, gmtls.RequestClientCert, f, depth))
+		}
 		for f := 0; f < rNumOps; f++ {
 			u = append(u, refClientHistUnit(s, f, depth))
 			hu := refClientHistUnit(s, f, depth-1)
